@@ -70,7 +70,7 @@ pub fn run(ctx: &mut Ctx) {
         }
         let s = inputs::small_string(i, small_len);
         for m in masks {
-            eval(ctx, &EncCase { input: s.clone(), list: "default".into(), mask: *m, macros: true, fnc1: false, eci: None }, "small_scope_exhaustive");
+            eval(ctx, &EncCase { input: s.clone(), list: "default".into(), mask: *m, macros: true, fnc1: false, eci: None, order: 0 }, "small_scope_exhaustive");
         }
     }
     ctx.exhaustive.insert(format!("strings_len_le_{}_over_8_class_representatives_x_{}_mode_sets", small_len, masks.len()), true);
@@ -89,7 +89,7 @@ pub fn run(ctx: &mut Ctx) {
                 _ => 1,
             };
             let input: Vec<u8> = (0..len).map(|j| if k == 1 { b'0' + (j % 10) as u8 } else if k == 2 { b'A' + (j % 26) as u8 } else if k == 0 { 0x80 + (j % 100) as u8 } else { b'a' + (j % 26) as u8 }).collect();
-            eval(ctx, &EncCase { input, list: r.name.into(), mask: 63, macros: false, fnc1: false, eci: None }, "every_size_near_capacity");
+            eval(ctx, &EncCase { input, list: r.name.into(), mask: 63, macros: false, fnc1: false, eci: None, order: 0 }, "every_size_near_capacity");
         }
     }
     let n = ctx.budget(300_000, 30_000_000);
